@@ -138,6 +138,13 @@ def ev(e):
         return os.path.join(C.root, e["$w"])
     if "$r" in e:
         return C.pool[e["$r"]]
+    if "$h" in e:
+        # an object the client keeps and re-uses across calls (an application holding one finder): created on
+        # first use in this process, the same instance afterwards; a fresh twin process creates its own
+        key = "held:" + json.dumps(e["$h"], sort_keys=True)
+        if key not in C.pool:
+            C.pool[key] = ev(e["$h"])
+        return C.pool[key]
     if "$c" in e:
         fn = C.reg[e["$c"]]
         args = [ev(x) for x in e.get("a", [])]
